@@ -181,6 +181,10 @@ def run(check, an: Analysis):
     # abort reaches every child: the closing loops walk copies (rule shared with C04)
     from . import c04
     c04.check_copy_iteration(check, an, 'P')
+    # re-planned rates reach the running transfers through a notification: its wake-ups go
+    # to the loop of the run that is current (no object keeps a loop; rule shared with C15)
+    from . import c15
+    c15.check_loop_never_kept(check, an, 'K')
     # the fluid model is integrated with the numbers as they are: no rounding, no tolerance
     from . import c01
     c01.check_exact_arithmetic(check, an, 'A', ('usim._basics.pipe', 'usim._core.loop',
